@@ -412,7 +412,7 @@ class ColumnMapper:
 
     @staticmethod
     def _category_handler(category_values, x):
-        return category_values.get(x, "")
+        return category_values.get(x, "n/a")
 
     @staticmethod
     def _value_handler(value_str, x):
